@@ -319,6 +319,71 @@ def c05f(prog, rep):
     rep.floor(R, "parse_structures() calls followed by the pop of their context", n, 3)
 
 
+# tokens after which a type is written in a declaration (Delphi grammar: `Name = <type>` in a type block, `Name: <type>`,
+# `reference to <procedural type>`, `array / set / file / class of <type>`); a `procedure` / `function` keyword that follows one of
+# them starts a procedural TYPE, which is part of the declaration's line
+TYPE_INTRODUCERS = ("Colon", "Equal", "To", "Of")
+
+
+def c05g(prog, rep):
+    """C05.g — sibling agreement in parse_statement: after every token that introduces a type, `procedure` / `function` is handed to
+    parse_routine_header (the declaration goes on), not left to the arm that starts an anonymous routine or a routine declaration
+    (which ends the declaration's line: the rest is printed as a line of its own at column 0, the next declaration drifts)."""
+    R = "C05.g"
+    P = "pasfmt_core::defaults::parser::InternalDelphiLogicalLineParser::"
+    b = prog.body(P + "parse_statement")
+    if not rep.check(b is not None, R, "anchor:parse_statement", "parse_statement not found"):
+        return
+    arms = {}
+    for c in b.calls():
+        if not norm(c.t.get("resolved") or c.target or c.callee or "").endswith("::parse_routine_header"):
+            continue
+        facts = [f for f in dominating_variant_facts(prog, b, c.bb) if f[0].startswith("get_current_token_type(")]
+        leaf = [f for f in facts if f[0].count("@") == 2]
+        if len(leaf) >= 2 and set(leaf[-1][2]) <= {"Function", "Procedure"} and leaf[0][1] == "is":
+            arms.setdefault(leaf[0][2][0], []).append(c)
+    missing = [t for t in TYPE_INTRODUCERS if t not in arms]
+    rep.check(not missing, R, "procedural-type-after-every-type-introducer",
+              "after %s parse_statement does not hand `procedure` / `function` to parse_routine_header (its siblings %s do): a procedural type written there (`array of procedure(X: Integer);`) "
+              "is taken for the start of a routine, the declaration is cut in two and what follows drifts to another level" % (missing, sorted(arms)),
+              where="%s:%d" % (b.file, b.line), instance={"arms": sorted(arms), "required": list(TYPE_INTRODUCERS)})
+
+
+# member parsers that go on after the `;` which ends the member and take a following word for one of the member's directives
+POST_SEMICOLON_DIRECTIVE_SITES = ("parse_routine_header", "parse_property_declaration")
+
+
+def c05h(prog, rep):
+    """C05.h — sibling agreement between the member parsers that look past the `;` of a member for its directives (`procedure P;
+    virtual;`, `property Items[..]..; default;`): the words they accept are contextual keywords, i.e. legal member names, so each of
+    them decides only after looking at the token BEHIND the word (`Default: Integer;` / `Default, Other: string;` is the next
+    member).  Every consolidate_current_keyword() at those sites is dominated by a get_token_type::<1>() lookahead."""
+    R = "C05.h"
+    P = "pasfmt_core::defaults::parser::InternalDelphiLogicalLineParser::"
+    n = 0
+    sites = []
+    for root in POST_SEMICOLON_DIRECTIVE_SITES:
+        fam = [x for k, x in prog.bodies.items() if k == P + root or k.startswith(P + root + "::{closure")]
+        rep.check(bool(fam), R, "anchor:" + root, "%s not found" % root)
+        for x in fam:
+            # the per-token closure of the property parser works in front of the `;` only (read / write / index ..): no ambiguity there
+            if root == "parse_property_declaration" and x.npath != P + root:
+                continue
+            if any(norm(c.t.get("resolved") or c.target or c.callee or "") == P + "consolidate_current_keyword" for c in x.calls()):
+                sites.append((root, x))
+    for site, b in sites:
+        looks = [c for c in b.calls() if norm(c.t.get("resolved") or c.target or c.callee or "") == P + "get_token_type" and (c.t.get("callee_args") or [None])[-1] == "1"]
+        for c in b.calls():
+            if norm(c.t.get("resolved") or c.target or c.callee or "") != P + "consolidate_current_keyword":
+                continue
+            n += 1
+            ok = any(b.dominates(l.bb, c.bb) for l in looks)
+            rep.check(ok, R, "directive-after-semicolon-needs-lookahead:" + site,
+                      "%s takes the word after the member's `;` for a directive without looking at the token behind it: a following member that is NAMED like the directive (`Default: Integer;`) "
+                      "is glued to this member's line and its `: Type;` is printed as a line of its own" % site, where=c.where(), instance={"site": site, "lookahead": "get_token_type::<1>()"})
+    rep.floor(R, "post-semicolon directive sites", n, 2)
+
+
 def check_c05(prog, rep, tier, cfg):
     c05e(prog, rep)
     c05a(prog, rep)
@@ -326,6 +391,8 @@ def check_c05(prog, rep, tier, cfg):
     c05c(prog, rep)
     c05d(prog, rep)
     c05f(prog, rep)
+    c05g(prog, rep)
+    c05h(prog, rep)
 
 
 PROPERTIES = {
